@@ -36,9 +36,9 @@ structure TaskSt where
   numcon : Nat := 0
   numsym : Nat := 0
   bardims : List Nat := []
-  /-- first error the real wrapper runs into (`OverflowError` of the `int8` row-index array under
-  numpy ≥ 2 for rows ≥ 128; an LMI coupled to a matrix variable that does not exist or has another
-  dimension, because the index is `psd_matrix.counter + 1` instead of the send position) -/
+  /-- first error the real wrapper runs into.  None is modelled any more: before the `fix:` commits
+  this was `OverflowError` (`int8` row-index array, rows ≥ 128) or `IndexError` (LMI coupled to
+  the matrix variable `psd_matrix.counter + 1` instead of its send position). -/
   error : Option String := Option.none
 
 def TaskSt.push (t : TaskSt) (c : TaskCall) : TaskSt := { t with calls := t.calls ++ [c] }
@@ -48,9 +48,6 @@ def mosekSendCons (nP : Nat) (t : TaskSt) (e : EObj) (isEq : Bool) : TaskSt :=
   if t.error.isSome then t else
   let s := exprSparse e
   let row := t.numcon
-  if row ≥ 128 then
-    -- `appendcons`, `appendsparsesymmat`, `putbaraij` happen before the failing `putaijlist`
-    { t with error := some "OverflowError" } else
   let t := (t.push .appendcons)
   let t := { t with numcon := t.numcon + 1 }
   let idx := t.numsym
@@ -60,11 +57,13 @@ def mosekSendCons (nP : Nat) (t : TaskSt) (e : EObj) (isEq : Bool) : TaskSt :=
   let t := t.push (.putaijlist row s.F)
   t.push (.putconbound row (if isEq then .fx (-s.c) else .up (-s.c)))
 
-/-- `send_lmi_constraint_to_solver`: note the matrix variable index `psd_matrix.counter + 1` -/
+/-- `send_lmi_constraint_to_solver`: the matrix variable index is the position of the LMI among the
+semidefinite variables appended so far (`_nb_pep_SDPconstraints_in_mosek - 1`) -/
 def mosekSendPsd (nP : Nat) (t : TaskSt) (m : PsdObj) (entries : List (List EObj)) : TaskSt := Id.run do
   if t.error.isSome then return t
   let mut t := t.push (.appendbarvars m.n)
   t := { t with bardims := t.bardims ++ [m.n] }
+  let bar := t.bardims.length - 1
   let mut i := 0
   for r in entries do
     let mut j := 0
@@ -72,10 +71,6 @@ def mosekSendPsd (nP : Nat) (t : TaskSt) (m : PsdObj) (entries : List (List EObj
       if t.error.isSome then return t
       let s := exprSparse e
       let row := t.numcon
-      if t.bardims[m.counter + 1]? != some m.n then
-        return { t with error := some "IndexError" }
-      if row ≥ 128 then
-        return { t with error := some "OverflowError" }
       t := t.push .appendcons
       t := { t with numcon := t.numcon + 1 }
       let idx1 := t.numsym
@@ -84,7 +79,7 @@ def mosekSendPsd (nP : Nat) (t : TaskSt) (m : PsdObj) (entries : List (List EObj
       t := t.push (.symmat m.n [⟨max i j, min i j, if i == j then -1 else -(1/2)⟩])
       t := { t with numsym := t.numsym + 2 }
       t := t.push (.putbaraij row 0 idx1)
-      t := t.push (.putbaraij row (m.counter + 1) idx2)
+      t := t.push (.putbaraij row bar idx2)
       t := t.push (.putaijlist row s.F)
       t := t.push (.putconbound row (.fx (-s.c)))
       j := j + 1
